@@ -144,17 +144,21 @@ def start_read(log, node, rid, data, off, size, sched=None, eager=False, lit=Fal
     return c
 
 
-def pump(g, until=None, max_steps=400000):
-    """Run the grid until quiescent (or until() is true)."""
+def pump(g, until=None, max_steps=60000):
+    """Run the grid until quiescent (or until() is true).  A system that never becomes quiescent is cut off
+    after max_steps scheduler steps (returns -1): the reads still pending then simply have no Done event."""
     n = 0
     while True:
         if until is not None and until():
             return n
-        if not g.step():
-            return n
+        try:
+            if not g.step():
+                return n
+        except Hang:
+            return -1
         n += 1
         if n > max_steps:
-            raise Hang("pump does not terminate")
+            return -1
 
 
 # ------------------------------------------------------------------------------------------------
@@ -347,8 +351,8 @@ def run_scenario(g, cap, data, consts, reads, rng, calm=False):
             env_action(rng, consumers, budget)
         progressed = g.step()
         steps += 1
-        if steps > 200000:
-            raise Hang("scenario does not terminate")
+        if steps > 60000:
+            break               # never quiescent: the pending reads have no Done event and End is rejected
         if not progressed:
             if pending:
                 continue_start = True
